@@ -5,8 +5,9 @@ KeysQ == {1, -1}
 KeysT == {1, 2, -1}
 MsgsQ == {<<A("a")>>, <<>>}
 MsgsT == {<<A("a")>>, <<>>, <<A("a"), A("b")>>}
-TausQ == {-1, 0, 5, 1000}
-TausT == {-1, 0, 1, 5, 1000, 60000}
+\* 2000000000 stands for the largest timeout (u64::MAX): the harness maps it, the model only needs it to exceed every delay
+TausQ == {-1, 0, 5, 1000, 2000000000}
+TausT == {-1, 0, 1, 5, 1000, 60000, 2000000000}
 NoDev == {}
 DevD6 == {"PokAugPlainMsg"}
 =============================================================================
